@@ -21,6 +21,20 @@ package bbolt
 //@   ghost var rm *record.Meta = nil
 //@   at after (*Meta).CheckPermission ghost rm = iterWrapper.meta
 //@   at send Next assert ok && l0 == local && i0 == internal && m0 == rm
+// C02: validity, key prefix and content match guard every record that is sent
+//@   ghost var valid bool = false
+//@   ghost var vm *record.Meta = nil
+//@   ghost var keyOK bool = false
+//@   ghost var recOK bool = false
+//@   ghost var rq *query.Query = nil
+//@   at after (*Meta).CheckValidity ghost valid = ret0
+//@   at after (*Meta).CheckValidity ghost vm = arg0
+//@   at after bytes.HasPrefix ghost keyOK = ret0
+//@   at call bytes.HasPrefix assert arg0 == key && arg1 == prefix
+//@   at after (*Query).MatchesRecord ghost recOK = ret0
+//@   at after (*Query).MatchesRecord ghost rq = arg0
+//@   at call (*Query).MatchesRecord assert typeIs(arg1, *record.Wrapper) && asType(arg1, *record.Wrapper) == iterWrapper
+//@   at send Next assert valid && vm == rm && keyOK && recOK && rq == q
 //@   loop 0 invariant true
 
 // purge: storage is modified only for records that passed the permission check
@@ -35,4 +49,12 @@ package bbolt
 //@   at after (*Meta).CheckPermission ghost i0 = arg2
 //@   at call (*Bucket).Put assert ok && l0 == local && i0 == internal
 //@   at call (*Cursor).Delete assert ok && l0 == local && i0 == internal
+//@   loop 0 invariant true
+
+// maintenance removes only records that are deleted or expired, and rewrites only expired ones as deleted
+//@ func (*BBolt).MaintainRecordStates$1
+//@   nopanic off
+//@   modifies *
+//@   at call (*Cursor).Delete assert meta.Deleted > 0 || (meta.Expires > 0 && meta.Expires < now)
+//@   at store Deleted assert meta.Deleted == 0 && meta.Expires > 0 && meta.Expires < now && value == meta.Expires && shadowDelete
 //@   loop 0 invariant true
